@@ -100,6 +100,10 @@ class CacheStore(object):
         # the cache all together.
         if self._directory is None:
             return
+        # Key the entry on the absolute path: scanners started in different
+        # directories can spell different files the same way (an include
+        # path of '.' or '../gir'), and must not share an entry then.
+        filename = os.path.abspath(filename)
         # Assume UTF-8 encoding for the filenames. This doesn't matter so much
         # as long as the results of this method always produce the same hash.
         hexdigest = hashlib.sha1(filename.encode('utf-8')).hexdigest()
